@@ -183,6 +183,35 @@ func runC11(res *Result, d *Driver, tier string, seed uint64) {
 			}
 		}
 	}
+	// a program that spends its life in trapped calls, cancelled at many instants (tracing runner): wherever the
+	// cancellation meets it — running, stopped for the tracer, between the stop and the tracer's look at it — the verdict is
+	// the cancellation's (or its own end), never a policy violation or a runner error
+	{
+		nT := 14
+		if tier == "thorough" {
+			nT = 300
+		}
+		trapper := strings.Repeat("sys 21 s:/nonexistent-verif 0;", 3500) + "exit 0"
+		for i := 0; i < nT; i++ {
+			delay := time.Duration(1000+rng.Intn(70000)) * time.Microsecond
+			ctx, cancel := context.WithCancel(context.Background())
+			go func() { time.Sleep(delay); cancel() }()
+			t0 := time.Now()
+			r, _ := runPtraceProbe(RunSpec{Script: trapper, Ctx: ctx, Timeout: 30 * time.Second, Filter: tracingFilter(), Handler: allowHandler{}})
+			el := time.Since(t0)
+			cancel()
+			res.Case(fmt.Sprintf("ptrace trapper cancel@%v %d", delay, i), true, "ptrace-trapper")
+			res.Traces++
+			switch r.Status {
+			case runner.StatusTimeLimitExceeded, runner.StatusNormal:
+			default:
+				res.Mismatch(Mismatch{Kind: "oracle", What: "cancel ends the run promptly with a truthful verdict (C11)", Input: fmt.Sprintf("ptrace runner, a program making 3500 trapped access() calls, cancelled after %v", delay), Impl: fmt.Sprintf("status=%v exit=%d err=%q elapsed=%v", r.Status, r.ExitStatus, r.Error, el), Oracle: "violates"})
+			}
+			if el > bound {
+				res.Mismatch(Mismatch{Kind: "oracle", What: "cancel ends the run promptly (C11)", Input: fmt.Sprintf("ptrace trapper cancelled after %v", delay), Impl: fmt.Sprintf("returned only after %v", el), Oracle: "violates"})
+			}
+		}
+	}
 	// pinned race: context already cancelled, and a long descriptor list keeps the child between clone and
 	// setsid while the canceller fires (kill(-pgid) then answers ESRCH)
 	pinned := 6
